@@ -46,3 +46,14 @@ Proof.
   - intros Hs. exact (compile_text_sound cfg text q Hs Ec).
 Qed.
 Print Assumptions C01_find_text.
+
+(* ... and every spelling does compile: for every filter-free query q, every token sequence t the grammar derives for it and every text z spelling t
+   (Proofs/LexComplete.v), find("$" z, v) is the RFC nodelist of q *)
+From JP Require Import Proofs.LexSpell Proofs.LexComplete.
+Theorem C01_every_spelling : forall cfg q t z a' v, QT cfg q t -> filter_free q = true -> forallb is_scalar z = true -> RunT a0 t z a' ->
+  (1 <= max_depth cfg)%nat -> (nesting v <= max_depth cfg)%nat ->
+  m_env_find cfg (36%N :: z) v = Ok (sem (reg cfg) (rx cfg) q v).
+Proof.
+  intros cfg q t z a' v HQ Hff Hs HR H1 Hn. unfold m_env_find. rewrite (spelled_compiles_ff cfg q t z a' HQ Hff Hs HR). cbn [bind]. apply find_filter_free; assumption.
+Qed.
+Print Assumptions C01_every_spelling.
